@@ -64,6 +64,20 @@ func onState(L *lua.LState, r *lrun.ImplRun) {
 		L.Push(lua.LNumber(dbg.CurrentLine))
 		return 1
 	}))
+	L.SetGlobal("curline2", L.NewFunction(func(L *lua.LState) int {
+		dbg, ok := L.GetStack(2)
+		if !ok {
+			L.Push(lua.LNumber(-1))
+			return 1
+		}
+		L.GetInfo("l", dbg, lua.LNil)
+		L.Push(lua.LNumber(dbg.CurrentLine))
+		return 1
+	}))
+	L.SetGlobal("hostfail", L.NewFunction(func(L *lua.LState) int {
+		L.RaiseError("Ehostiter") // luaL_error: position of the calling Lua code
+		return 0
+	}))
 	L.SetGlobal("emitline", L.NewFunction(func(L *lua.LState) int {
 		ev(strconv.Quote(L.CheckString(1)), strconv.Quote(marker(L.CheckInt(2))))
 		return 0
@@ -169,6 +183,13 @@ func onModel(in *lref.Interp) {
 	}
 	in.Register("curline", func(in *lref.Interp, a []lref.Value) []lref.Value {
 		return []lref.Value{in.PosMarkerAtLevel(1)}
+	})
+	in.Register("curline2", func(in *lref.Interp, a []lref.Value) []lref.Value {
+		return []lref.Value{in.PosMarkerAtLevel(2)}
+	})
+	in.Register("hostfail", func(in *lref.Interp, a []lref.Value) []lref.Value {
+		in.RTErrorMsg("Ehostiter")
+		return nil
 	})
 	in.Register("emitline", func(in *lref.Interp, a []lref.Value) []lref.Value {
 		in.Emit(strconv.Quote(str(a, 0)) + "," + strconv.Quote(str(a, 1)))
@@ -276,6 +297,14 @@ func runCase(c *fw.Ctx, idx int, count bool) {
 	header := ""
 	if lr.Intn(5) == 0 {
 		header = []string{"#!/usr/bin/env lua\n", "#\n", "#! lua -- not code: error('x') [[\n"}[lr.Intn(3)]
+	}
+	if header == "" && len(eol) == 2 && lr.Intn(3) == 0 {
+		// a long comment as first line puts one of the program's two-byte line
+		// ends near the scanner reader's 4096-byte refill
+		header = "--" + strings.Repeat("p", 4090-lr.Intn(700)) + eol
+		if count {
+			c.Count("programs_behind_a_4k_comment_line", 1)
+		}
 	}
 	mkLayout := func() *last.Layout {
 		lay := &last.Layout{Wild: true, R: newRand(seed), PNewline: pn, AltStrings: true, Semis: true, ExtraParens: true, EOL: eol}
